@@ -125,10 +125,17 @@ class StructParam(Parameter):
                     pobj = self.parameters[name]
                     # disable updates generated from the callbacks of individual params
                     pobj.insideRW += 1   # guarded by self.accessLock
+                    done = {}
                     try:
-                        return {m: getattr(self, f)() for m, f in flist}
+                        for m, f in flist:
+                            done[m] = getattr(self, f)()
+                        return done
                     finally:
                         pobj.insideRW -= 1
+                        if done and len(done) < len(flist):
+                            # a member failed: the members read before are updated
+                            # already, keep the struct in line with them
+                            setattr(self, name, dict(getattr(self, name), **done))
 
                 setattr(owner, struct_read_name, struct_read_func)
 
@@ -138,10 +145,17 @@ class StructParam(Parameter):
                         (m, f'write_{p.name}') for m, p in self.paramdict.items())):
                     pobj = self.parameters[name]
                     pobj.insideRW += 1  # guarded by self.accessLock
+                    done = {}
                     try:
-                        return {m: getattr(self, f)(value[m]) for m, f in funclist}
+                        for m, f in funclist:
+                            done[m] = getattr(self, f)(value[m])
+                        return done
                     finally:
                         pobj.insideRW -= 1
+                        if done and len(done) < len(funclist):
+                            # a member failed: the members written before are changed
+                            # already, keep the struct in line with them
+                            setattr(self, name, dict(getattr(self, name), **done))
 
                 setattr(owner, struct_write_name, struct_write_func)
 
